@@ -36,7 +36,8 @@ MC = {
     "C15": [mc("HuffWM", "MC_HuffWM_k4_quick", "MC_HuffWM_k4"), mc("HuffWM", "MC_HuffWM_k4_codes"), mc("HuffWM", "MC_HuffWM_k2_quick", "MC_HuffWM_k2")],
     "C17": [mc("Words", "MC_Words", workers=6)],
     "C18": [mc("MC_Conc", "MC_Conc_none", workers=4), mc("MC_Conc", "MC_Conc_atomic_pair", workers=4), mc("MC_Conc", "MC_Conc_torn_single", workers=4), mc("MC_Conc", "MC_Conc_lazy_linear", workers=4)],
-    "C19": [mc("MC_BitVecLines", "MC_BitVecLines", "MC_BitVecLines_thorough")],
+    "C19": [mc("MC_LibConv", "MC_LibConv", workers=2), mc("MC_BitVecLines", "MC_BitVecLines", "MC_BitVecLines_thorough")],
+    "C11": [mc("MC_LibConv", "MC_LibConv", workers=2)],
 }
 
 PLAN = {
@@ -54,11 +55,11 @@ PLAN = {
     "C09": {"level": "model_checking", "campaigns": [camp("c09", C.camp_c09, {"quick": ["opt", "opt-nopf", "chk"], "thorough": ["opt", "opt-nopf", "chk", "chk-nopf"]},
                                                          xbuild={"quick": ("opt", "opt-nopf"), "thorough": ("opt", "opt-nopf")})]},
     "C10": {"level": "model_checking", "campaigns": [camp("c10", C.camp_c10, QC)]},
-    "C11": {"level": "model_checking", "campaigns": [camp("c11", C.camp_c11, {"quick": ["opt"], "thorough": ["opt", "chk"]})]},
+    "C11": {"level": "model_checking", "campaigns": [{"name": "c11tlc", "tlcgen": "conv", "tags": Q}, camp("c11", C.camp_c11, {"quick": ["opt"], "thorough": ["opt", "chk"]})]},
     "C12": {"level": "model_checking",
             "campaigns": [{"name": "c12tlc", "tlcgen": "it", "tags": Q}, camp("c12", C.camp_c12)]},
     "C13": {"level": "model_checking", "campaigns": [{"name": "c13tlc", "tlcgen": "qb", "tags": QC}, camp("c13", C.camp_c13)]},
-    "C19": {"level": "model_checking", "campaigns": [camp("c19", C.camp_c19)]},
+    "C19": {"level": "model_checking", "campaigns": [{"name": "c19tlc", "tlcgen": "conv", "tags": Q}, camp("c19", C.camp_c19)]},
     "C14": {"level": "model_checking", "campaigns": [camp("c14", C.camp_c14, {"quick": ["opt"], "thorough": ["opt"]})]},
     "C15": {"level": "model_checking", "campaigns": [camp("c15", C.camp_c15, {"quick": ["opt"], "thorough": ["opt"]})]},
     "C16": {"level": "model_checking", "campaigns": [camp("c16", C.camp_c16, {"quick": ["opt"], "thorough": ["opt"]})]},
